@@ -80,6 +80,13 @@ func (t ChecksumType) ChecksumSize() int {
 	}
 }
 
+// isKnown returns whether the checksum type is one this implementation has a
+// pool for. Checksum types arrive as a single byte from the peer, so any
+// value is possible; unknown types must be rejected before pool() is used.
+func (t ChecksumType) isKnown() bool {
+	return t < checksumCount
+}
+
 // pool returns the sync.Pool used to pool checksums for this type.
 func (t ChecksumType) pool() *sync.Pool {
 	return &checksumPools[int(t)]
